@@ -29,31 +29,49 @@ def gen_reactions(rng, tier):
     n = 30 if tier == "quick" else 120
     alpha = 1.0
     fam = 0
+    # (a UCLCHEM reaction makes the generated code refer to the H2 abundance - finding F17 - so H2 is always a species here)
+    out.append({"re": ["H", "H"], "pr": ["H2"], "tmin": -1.0, "tmax": -1.0, "alpha": 1.0, "group": None, "fmt": "naunet", "kind": None})
     while len(out) < n:
         re_ = [rng.choice(SPECIES) for _ in range(rng.choice([1, 2, 2]))]
         pr_ = [rng.choice(SPECIES) for _ in range(rng.choice([1, 2]))]
-        fmt = rng.choice(["naunet", "kida", "umist", "krome"])
+        fmt = rng.choice(["naunet", "kida", "umist", "krome", "uclchem", "uclchem", "leeds"])
+        kind = None
+        if fmt == "uclchem":
+            # the second reactant column of a UCLCHEM line names the process: two-body (a species), direct cosmic ray, photon,
+            # cosmic-ray photon - all of them carry the two window columns
+            kind = rng.choice(["MA", "CRP", "PHOTON", "CRPHOT"])
+            if kind != "MA":
+                re_ = re_[:1]
+        if fmt == "leeds":
+            kind = rng.choice([1, 2, 3, 4])       # two-body, cosmic-ray proton, cosmic-ray photon, photoprocess
+            re_, pr_ = re_[:2 if kind == 1 else 1], pr_[:2]
+        if kind in (4, "PHOTON") and re_[0] in ("H2", "CO", "N2"):
+            re_[0] = rng.choice(["C", "O", "OH", "H2O", "CH", "N"])     # (self-shielded species take their rate from a table function)
         if rng.random() < 0.35:
             # adjacent piecewise windows
             fam += 1
             nb = rng.randint(3, 5)
             bounds = sorted(rng.sample([5, 10, 20, 50, 100, 280, 300, 800, 1000, 5500, 41000, 11604.518, 157.321987, 9280.1234, 2.7255], nb))
-            if fmt == "kida":       # KIDA windows are integer columns
+            if fmt in ("kida", "leeds"):       # KIDA and Leeds windows are integer columns
                 bounds = sorted({int(x) for x in bounds if int(x) > 0})
                 if len(bounds) < 2:
                     bounds = [10, 300]
             for a, b in zip(bounds, bounds[1:]):
                 alpha += 1.0
                 out.append({"re": re_, "pr": pr_, "tmin": float(a), "tmax": float(b), "alpha": alpha, "group": fam, "fmt": fmt,
-                            "bounds": bounds})
+                            "bounds": bounds, "kind": kind})
         else:
             shape = rng.choice(["none", "lower", "upper", "both", "zero", "neg-lower", "zero-upper"])
-            lo = float(rng.choice([5, 10, 100, 300, 5500, 11604.518, 157.321987] if fmt != "kida" else [5, 10, 100, 300, 5500]))
+            lo = float(rng.choice([5, 10, 100, 300, 5500, 11604.518, 157.321987] if fmt not in ("kida", "leeds") else [5, 10, 100, 300, 5500]))
+            if fmt == "leeds" and shape in ("neg-lower",):
+                shape = "upper"          # (the Leeds columns are unsigned)
             hi = float(rng.choice([300, 1000, 41000])) if shape != "both" else lo * rng.choice([2, 10])
             tmin, tmax = {"none": (-1.0, -1.0), "lower": (lo, -1.0), "upper": (-1.0, hi), "both": (lo, hi), "zero": (0.0, 0.0),
                           "neg-lower": (-9999.0, hi), "zero-upper": (lo, 0.0)}[shape]
             alpha += 1.0
-            out.append({"re": re_, "pr": pr_, "tmin": tmin, "tmax": tmax, "alpha": alpha, "group": None, "fmt": fmt})
+            if fmt == "leeds":
+                tmin, tmax = max(tmin, 0.0), max(tmax, 0.0)
+            out.append({"re": re_, "pr": pr_, "tmin": tmin, "tmax": tmax, "alpha": alpha, "group": None, "fmt": fmt, "kind": kind})
     return out
 
 
@@ -100,6 +118,13 @@ def write_files(rng, reacs, d: Path):
                     sp = r["re"][:2] + r["pr"] + [""] * (4 - len(r["pr"]))
                 lines.append(":".join([str(idx), "NN", *sp, "1", f"{r['alpha']:.2e}", "0.00", "0.0", f"{r['tmin']!r}", f"{r['tmax']!r}",
                                        "L", "C", '"x"', "", ""]))
+            elif fmt == "uclchem":
+                k = r["kind"]
+                re_ = (r["re"] + ["NAN"] * 3)[:3] if k == "MA" else [r["re"][0], k, "NAN"]
+                pr_ = (r["pr"] + ["NAN"] * 4)[:4]
+                lines.append(",".join([*re_, *pr_, f"{r['alpha']:.3e}", "0.0", "0.0", f"{r['tmin']!r}", f"{r['tmax']!r}"]))
+            elif fmt == "leeds":
+                lines.append(netgen.leeds_line(idx, r["re"], r["pr"], a=r["alpha"], lt=int(r["tmin"]), ht=int(r["tmax"]), rtype=r["kind"]))
             elif fmt == "krome":
                 if not lines:
                     lines.append("@format:idx,R,R,R,P,P,P,P,Tmin,Tmax,rate")
@@ -212,7 +237,12 @@ def run(argv):
                         break
                     if kvals is not None:
                         kv = kvals[temps.index(T)][i]
-                        if want and not (abs(kv - r["alpha"]) <= 1e-12 * r["alpha"]):
+                        plain = r.get("kind") in (None, "MA", 1)
+                        if want and not plain and math.isnan(kv):
+                            chk.violation({"kind": "compiled-rate-wrong", "backend": b}, f"inside the window k[{i}] is not assigned",
+                                          input=show, T=T)
+                            break
+                        if want and plain and not (abs(kv - r["alpha"]) <= 1e-12 * r["alpha"]):
                             chk.violation({"kind": "compiled-rate-wrong", "backend": b}, f"inside the window k[{i}]={kv!r}, expected {r['alpha']!r}",
                                           input=show, T=T)
                             break
